@@ -195,6 +195,15 @@ impl Policy for RandomPolicy {
     }
 }
 
+/// The buffer a random run hands to `with_buffer` (None: `new`): what it holds and how much room it has is no part of any contract.
+pub fn start_buffer(seed: u64) -> Option<Vec<u8>> {
+    match seed % 4 {
+        2 => Some(vec![0xee; 9]),
+        3 => { let mut b = Vec::with_capacity(70_000); b.extend_from_slice(&[0xdd; 5]); Some(b) }
+        _ => None
+    }
+}
+
 /// One seeded random run of a compliant caller (after a write that did not return Ok while armed,
 /// sync is driven to completion before the next write; both kinds of future may be dropped at Pending).
 pub fn run_random(seed: u64, nvals: usize, max_payload: usize) -> Vec<Value> {
@@ -203,7 +212,7 @@ pub fn run_random(seed: u64, nvals: usize, max_payload: usize) -> Vec<Value> {
     let vals: Vec<i64> = (0..nvals).map(|_| match rng.gen_range(0..12) { 0 => -1, 1 => 1, 2 => max_payload as i64, _ => rng.gen_range(1..=max_payload as i64) }).collect();
     let shared = Rc::new(RefCell::new(Shared { sink: vec![], script: VecDeque::new(),
         policy: Some(Box::new(RandomPolicy { rng: StdRng::seed_from_u64(seed ^ 0xabcd), pend_run: 0, faults_left: 6 })), log: vec![], desync: None }));
-    let mut writer = AsyncWriter::new(Sink(shared.clone()));
+    let mut writer = match start_buffer(seed) { Some(b) => AsyncWriter::with_buffer(Sink(shared.clone()), b), None => AsyncWriter::new(Sink(shared.clone())) };
     writer.set_max_len(maxlen);
     let wp: *mut AsyncWriter<Sink> = &mut writer;
     let mut events = vec![json!({"ev":"reset","vals": vals, "maxlen": maxlen, "seed": seed})];
